@@ -1,7 +1,7 @@
 use num::bigint::BigInt;
 use num::traits::FloatConst;
 use num::{
-    BigRational, CheckedAdd, CheckedMul, CheckedSub, FromPrimitive, Rational64, Signed,
+    BigRational, CheckedAdd, CheckedMul, CheckedSub, FromPrimitive, Signed,
 };
 use num::{Num, Rational32, ToPrimitive};
 use std::cmp::Ordering;
@@ -869,12 +869,20 @@ impl Number {
     pub fn quotient(&self, rhs: &Self) -> Option<Number> {
         match self {
             Number::Fixnum(lhs) => match rhs {
-                Number::Fixnum(rhs) => Some((lhs / rhs).into()),
+                // i64::MIN / -1 does not fit an i64
+                Number::Fixnum(rhs) => Some(match i64::checked_div(*lhs, *rhs) {
+                    Some(num) => num.into(),
+                    None => (BigInt::from(*lhs) / rhs).into(),
+                }),
                 Number::BigInt(rhs) => Some((BigInt::from(*lhs) / &**rhs).into()),
                 Number::Float(rhs) => lhs.to_f64().map(|lhs| (lhs / rhs).trunc().into()),
                 Number::Rational(rhs) => {
                     if rhs.is_integer() {
-                        Some((*lhs / rhs.to_i64().unwrap()).into())
+                        let rhs = rhs.to_i64().unwrap();
+                        Some(match i64::checked_div(*lhs, rhs) {
+                            Some(num) => num.into(),
+                            None => (BigInt::from(*lhs) / rhs).into(),
+                        })
                     } else {
                         None
                     }
@@ -932,12 +940,16 @@ impl Rem for &Number {
     fn rem(self, rhs: Self) -> Self::Output {
         match self {
             Number::Fixnum(lhs) => match rhs {
-                Number::Fixnum(rhs) => Some((lhs % rhs).into()),
+                Number::Fixnum(rhs) => Some(i64::checked_rem(*lhs, *rhs).unwrap_or(0).into()),
                 Number::BigInt(rhs) => Some((BigInt::from(*lhs) % &**rhs).into()),
                 Number::Float(rhs) => Some((*lhs as f64 % rhs).into()),
                 Number::Rational(rhs) => {
-                    let result = Rational64::from_integer(*lhs)
-                        % Rational64::from((*rhs.numer() as i64, *rhs.denom() as i64));
+                    // 128 bits: a 64 bit lhs times the denominator (and i64::MIN % -1) overflow 64
+                    let result = num::rational::Ratio::<i128>::from_integer(*lhs as i128)
+                        % num::rational::Ratio::<i128>::from((
+                            *rhs.numer() as i128,
+                            *rhs.denom() as i128,
+                        ));
                     // lhs % rhs is guaranteed to be less than rhs. Since lhs is a whole integer,
                     // both numerator and denominator still fit in an i32.
                     Some(Rational32::from((*result.numer() as i32, *result.denom() as i32)).into())
@@ -974,6 +986,17 @@ impl Rem for &Number {
                 Number::Fixnum(rhs) => Some((lhs.to_i64().unwrap() % *rhs).into()),
                 Number::Float(rhs) => lhs.to_f64().map(|lhs| (lhs % rhs).into()),
                 Number::BigInt(rhs) => Some((BigInt::from(lhs.to_i64().unwrap()) % &**rhs).into()),
+                // integers (the only operands remainder and modulo accept): i32::MIN % -1 overflows
+                Number::Rational(rhs)
+                    if lhs.is_integer() && rhs.is_integer() && *rhs.numer() != 0 =>
+                {
+                    Some(
+                        Rational32::from_integer(
+                            i32::checked_rem(*lhs.numer(), *rhs.numer()).unwrap_or(0),
+                        )
+                        .into(),
+                    )
+                }
                 Number::Rational(rhs) => Some((lhs % rhs).into()),
             },
         }
